@@ -34,6 +34,8 @@ type exprEnv struct {
 	err    string
 	idxTerms []Term // index terms seen (candidates for quantifier patterns)
 	triggers [][]Term // explicit trigger(...) groups of the quantifier being translated
+	instDepth int     // nesting depth of explicit instantiation
+	witnesses []Term  // goal mode: named witnesses of existential hypotheses (candidate witnesses for existential goals)
 	hypInst  []Term   // goal mode: index terms at which quantified hypotheses of the goal are instantiated
 	goalSk   []Term   // goal mode: constants used to skolemize positive single-int foralls
 	skNext   int
@@ -103,11 +105,56 @@ func (env *exprEnv) trGoal(x *Expr) typedTerm {
 	case "binary":
 		switch x.name {
 		case "==>":
+			if h := x.args[0]; h.op == "exists" && len(h.vars) == 1 && isInteger(env.resolveType(h.vars[0].typ)) {
+				// an existential hypothesis: its witness becomes a named constant, and the declared loop invariants are
+				// instantiated at that constant (the solver cannot name its own Skolem constant in those instances)
+				env.g.nHsk++
+				c := fmt.Sprintf("hsk!%d", env.g.nHsk)
+				env.g.declare(fmt.Sprintf("(declare-fun %s () Int)", c))
+				old, had := env.vars[h.vars[0].name]
+				env.vars[h.vars[0].name] = typedTerm{t: c, typ: tInt}
+				saved := env.instAt
+				env.instAt = append(append([]Term{}, env.hypInst...), env.goalSk...)
+				a := env.tr(h.args[0])
+				env.instAt = saved
+				if had {
+					env.vars[h.vars[0].name] = old
+				} else {
+					delete(env.vars, h.vars[0].name)
+				}
+				hyps := []Term{"(inr64 " + c + ")", a.t}
+				env.witnesses = append(env.witnesses, c)
+				if env.e == nil {
+					b := env.trGoal(x.args[1])
+					return typedTerm{t: implies(and(hyps...), b.t), typ: tBool}
+				}
+				root := env.e.root()
+				savedExtra := root.extraInst
+				root.extraInst = append(append([]Term{}, savedExtra...), c)
+				for _, rec := range root.invRecords {
+					hyps = append(hyps, implies(rec.reach, env.e.invExpr(rec.expr, rec.head, rec.cur, true)))
+				}
+				root.extraInst = savedExtra
+				// ... and so are the automatic loop summaries
+				for _, sm := range root.summaries {
+					if sm.nested {
+						continue
+					}
+					lo, hi := sm.init, sm.K
+					if sm.shift == 1 {
+						lo, hi = "(+ "+sm.init+" 1)", "(+ "+sm.K+" 1)"
+					}
+					hyps = append(hyps, implies(and(sm.reach, "(<= "+lo+" "+c+")", "(< "+c+" "+hi+")"), strings.ReplaceAll(sm.cont, "@J@", c)))
+				}
+				b := env.trGoal(x.args[1])
+				return typedTerm{t: implies(and(hyps...), b.t), typ: tBool}
+			}
+			// the goal first: it may introduce named witnesses, at which the hypotheses are then instantiated as well
+			b := env.trGoal(x.args[1])
 			saved := env.instAt
-			env.instAt = append(append([]Term{}, env.hypInst...), env.goalSk...)
+			env.instAt = append(append(append([]Term{}, env.hypInst...), env.goalSk...), env.witnesses...)
 			a := env.tr(x.args[0])
 			env.instAt = saved
-			b := env.trGoal(x.args[1])
 			return typedTerm{t: implies(a.t, b.t), typ: tBool}
 		case "&&":
 			a := env.trGoal(x.args[0])
@@ -116,7 +163,7 @@ func (env *exprEnv) trGoal(x *Expr) typedTerm {
 		case "==":
 			// b == (forall ...) is proved as two implications, so that the quantifier is skolemized in one
 			// direction and instantiated in the other (solvers do poorly on an equality with a quantified side)
-			if x.args[0].op == "forall" || x.args[1].op == "forall" {
+			if x.args[0].op == "forall" || x.args[1].op == "forall" || x.args[0].op == "exists" || x.args[1].op == "exists" {
 				imp := func(a, b *Expr) *Expr { return &Expr{op: "binary", name: "==>", args: []*Expr{a, b}} }
 				l := env.trGoal(imp(x.args[0], x.args[1]))
 				r := env.trGoal(imp(x.args[1], x.args[0]))
@@ -136,6 +183,32 @@ func (env *exprEnv) trGoal(x *Expr) typedTerm {
 				delete(env.vars, x.vars[0].name)
 			}
 			return typedTerm{t: implies("(inr64 "+c+")", b.t), typ: tBool}
+		}
+	case "exists":
+		// a positive existential over one integer: besides the quantified form, the candidate witnesses known to the
+		// translation (loop iteration indices) are offered as explicit disjuncts; each disjunct gets its own goal
+		// constants for inner universals (sharing one constant between disjuncts would be unsound), so candidates are
+		// used only while constants remain
+		if len(x.vars) == 1 && isInteger(env.resolveType(x.vars[0].typ)) && len(env.hypInst)+len(env.witnesses) > 0 {
+			disj := []Term{env.tr(x).t}
+			old, had := env.vars[x.vars[0].name]
+			var cands []Term
+			for k := len(env.witnesses) - 1; k >= 0; k-- { // the most recent witness first
+				cands = append(cands, env.witnesses[k])
+			}
+			for _, cand := range append(cands, env.hypInst...) {
+				if env.skNext >= len(env.goalSk) {
+					break
+				}
+				env.vars[x.vars[0].name] = typedTerm{t: cand, typ: tInt}
+				disj = append(disj, env.trGoal(x.args[0]).t)
+			}
+			if had {
+				env.vars[x.vars[0].name] = old
+			} else {
+				delete(env.vars, x.vars[0].name)
+			}
+			return typedTerm{t: or(disj...), typ: tBool}
 		}
 	case "call":
 		if x.args[0].op == "ident" && env.pkg != nil {
@@ -346,7 +419,14 @@ func (env *exprEnv) tr(x *Expr) typedTerm {
 			// explicit instances at the given index terms, in addition to the quantified formula
 			var insts []Term
 			saveI := env.instAt
+			// inside an instance, a directly nested quantifier is instantiated too (pairs of index terms: needed for
+			// invariants of the shape forall g :: forall i :: ...), but not deeper
 			env.instAt = nil
+			if env.instDepth == 0 && len(saveI) <= 8 {
+				env.instAt = saveI
+			}
+			env.instDepth++
+			defer func() { env.instDepth-- }()
 			for _, at := range saveI {
 				old, had := env.vars[x.vars[0].name]
 				env.vars[x.vars[0].name] = typedTerm{t: at, typ: tInt}
